@@ -1,0 +1,264 @@
+//go:build verif
+
+package bluemonday
+
+import (
+	"io"
+	"reflect"
+	"regexp"
+	"runtime"
+	"sort"
+
+	"golang.org/x/net/html"
+)
+
+// Verification hooks: compiled only with the "verif" build tag. Each hook
+// forwards to a function variable that a test harness may install; nothing is
+// installed by default.
+
+// VerifStringWriter is what the sanitizer writes to.
+type VerifStringWriter interface {
+	io.Writer
+	io.StringWriter
+}
+
+// VerifHooks are the installable observers. They must be set before any
+// Sanitize* call starts and not changed while calls are running.
+var VerifHooks struct {
+	// Writer may wrap the destination of one call (r identifies the call).
+	Writer func(r io.Reader, w VerifStringWriter) VerifStringWriter
+	// Tok is called once per token, before it is processed, with the loop state.
+	Tok func(r io.Reader, t *html.Token, skip bool, cnt int64, skipClosing bool, stack []string, mrst string)
+	// End is called when sanitize returns, with the final loop state.
+	End func(r io.Reader, skip bool, cnt int64, skipClosing bool, stack []string, mrst string)
+	// AttrsIn / AttrsOut bracket each call of sanitizeAttrs.
+	AttrsIn  func(r io.Reader, el string, attrs []html.Attribute)
+	AttrsOut func(r io.Reader, attrs []html.Attribute)
+}
+
+func verifWriter(r io.Reader, w stringWriterWriter) stringWriterWriter {
+	if h := VerifHooks.Writer; h != nil {
+		return h(r, w)
+	}
+	return w
+}
+
+func verifTok(r io.Reader, t *html.Token, skip bool, cnt int64, skipClosing bool, stack []string, mrst string) {
+	if h := VerifHooks.Tok; h != nil {
+		h(r, t, skip, cnt, skipClosing, stack, mrst)
+	}
+}
+
+func verifEnd(r io.Reader, skip bool, cnt int64, skipClosing bool, stack []string, mrst string) {
+	if h := VerifHooks.End; h != nil {
+		h(r, skip, cnt, skipClosing, stack, mrst)
+	}
+}
+
+func verifAttrsIn(r io.Reader, el string, attrs []html.Attribute) {
+	if h := VerifHooks.AttrsIn; h != nil {
+		h(r, el, attrs)
+	}
+}
+
+func verifAttrsOut(r io.Reader, attrs []html.Attribute) {
+	if h := VerifHooks.AttrsOut; h != nil {
+		h(r, attrs)
+	}
+}
+
+// VerifPolicy is a deep, order-normalised projection of every field of a
+// Policy. Regular expressions are identified by their source text, function
+// values by their symbol name.
+type VerifPolicy struct {
+	Initialized bool                           `json:"initialized"`
+	ElAttrs     map[string]map[string][]string `json:"elAttrs"`
+	PatAttrs    map[string]map[string][]string `json:"patAttrs"`
+	GlobalAttrs map[string][]string            `json:"globalAttrs"`
+	BareEl      []string                       `json:"bareEl"`
+	BarePat     []string                       `json:"barePat"`
+	Skip        []string                       `json:"skip"`
+	ElStyles    map[string]map[string][]string `json:"elStyles"`
+	PatStyles   map[string]map[string][]string `json:"patStyles"`
+	GlobalStyle map[string][]string            `json:"globalStyles"`
+	Schemes     map[string][]string            `json:"schemes"`
+	SchemePats  []string                       `json:"schemePats"`
+	Parseable   bool                           `json:"parseable"`
+	Relative    bool                           `json:"relative"`
+	NoFollow    bool                           `json:"nofollow"`
+	NoFollowFQ  bool                           `json:"nofollowFQ"`
+	NoReferrer  bool                           `json:"noreferrer"`
+	NoRefFQ     bool                           `json:"noreferrerFQ"`
+	TargetBlank bool                           `json:"targetBlank"`
+	CrossOrigin bool                           `json:"crossorigin"`
+	AddSpaces   bool                           `json:"addSpaces"`
+	Comments    bool                           `json:"comments"`
+	DataAttrs   bool                           `json:"dataAttrs"`
+	Unsafe      bool                           `json:"unsafe"`
+	Rewriter    string                         `json:"rewriter"`
+	SandboxOn   bool                           `json:"sandboxOn"`
+	Sandbox     []string                       `json:"sandbox"`
+}
+
+// VerifAny is the matcher id of an attribute rule without a value pattern.
+const VerifAny = "ANY"
+
+func verifFuncName(f interface{}) string {
+	v := reflect.ValueOf(f)
+	if !v.IsValid() || v.IsNil() {
+		return ""
+	}
+	fn := runtime.FuncForPC(v.Pointer())
+	if fn == nil {
+		return "?"
+	}
+	return fn.Name()
+}
+
+func verifSortedSet(in []string) []string {
+	out := []string{}
+	seen := map[string]bool{}
+	for _, s := range in {
+		if !seen[s] {
+			seen[s] = true
+			out = append(out, s)
+		}
+	}
+	sort.Strings(out)
+	return out
+}
+
+func verifAttrPols(aps []attrPolicy) []string {
+	ids := []string{}
+	for _, ap := range aps {
+		if ap.regexp == nil {
+			ids = append(ids, VerifAny)
+		} else {
+			ids = append(ids, "re:"+ap.regexp.String())
+		}
+	}
+	return verifSortedSet(ids)
+}
+
+// VerifStylePolicyID names one style matcher: h:<func>, e:<enum joined by |>,
+// r:<regexp source>, or none: for a rule that can never accept.
+func verifStylePols(sps []stylePolicy) []string {
+	ids := []string{}
+	for _, sp := range sps {
+		switch {
+		case sp.handler != nil:
+			ids = append(ids, "h:"+verifFuncName(sp.handler))
+		case len(sp.enum) > 0:
+			s := "e:"
+			for i, e := range sp.enum {
+				if i > 0 {
+					s += "|"
+				}
+				s += e
+			}
+			ids = append(ids, s)
+		case sp.regexp != nil:
+			ids = append(ids, "r:"+sp.regexp.String())
+		default:
+			ids = append(ids, "none:")
+		}
+	}
+	return verifSortedSet(ids)
+}
+
+func verifMergeAttr(dst map[string][]string, src map[string][]attrPolicy) {
+	for k, v := range src {
+		dst[k] = verifSortedSet(append(dst[k], verifAttrPols(v)...))
+	}
+}
+
+func verifMergeStyle(dst map[string][]string, src map[string][]stylePolicy) {
+	for k, v := range src {
+		dst[k] = verifSortedSet(append(dst[k], verifStylePols(v)...))
+	}
+}
+
+func verifKeys(m map[string]struct{}) []string {
+	out := []string{}
+	for k := range m {
+		out = append(out, k)
+	}
+	return verifSortedSet(out)
+}
+
+func verifRegexps(rs []*regexp.Regexp) []string {
+	out := []string{}
+	for _, r := range rs {
+		out = append(out, r.String())
+	}
+	return verifSortedSet(out)
+}
+
+// VerifSnapshot projects the policy without modifying it.
+func VerifSnapshot(p *Policy) VerifPolicy {
+	s := VerifPolicy{
+		Initialized: p.initialized,
+		ElAttrs:     map[string]map[string][]string{},
+		PatAttrs:    map[string]map[string][]string{},
+		GlobalAttrs: map[string][]string{},
+		ElStyles:    map[string]map[string][]string{},
+		PatStyles:   map[string]map[string][]string{},
+		GlobalStyle: map[string][]string{},
+		Schemes:     map[string][]string{},
+		BareEl:      verifKeys(p.setOfElementsAllowedWithoutAttrs),
+		BarePat:     verifRegexps(p.setOfElementsMatchingAllowedWithoutAttrs),
+		Skip:        verifKeys(p.setOfElementsToSkipContent),
+		SchemePats:  verifRegexps(p.allowURLSchemeRegexps),
+		Parseable:   p.requireParseableURLs,
+		Relative:    p.allowRelativeURLs,
+		NoFollow:    p.requireNoFollow,
+		NoFollowFQ:  p.requireNoFollowFullyQualifiedLinks,
+		NoReferrer:  p.requireNoReferrer,
+		NoRefFQ:     p.requireNoReferrerFullyQualifiedLinks,
+		TargetBlank: p.addTargetBlankToFullyQualifiedLinks,
+		CrossOrigin: p.requireCrossOriginAnonymous,
+		AddSpaces:   p.addSpaces,
+		Comments:    p.allowComments,
+		DataAttrs:   p.allowDataAttributes,
+		Unsafe:      p.allowUnsafe,
+		Rewriter:    verifFuncName(p.srcRewriter),
+		SandboxOn:   p.requireSandboxOnIFrame != nil,
+		Sandbox:     []string{},
+	}
+	for el, m := range p.elsAndAttrs {
+		s.ElAttrs[el] = map[string][]string{}
+		verifMergeAttr(s.ElAttrs[el], m)
+	}
+	for re, m := range p.elsMatchingAndAttrs {
+		if s.PatAttrs[re.String()] == nil {
+			s.PatAttrs[re.String()] = map[string][]string{}
+		}
+		verifMergeAttr(s.PatAttrs[re.String()], m)
+	}
+	verifMergeAttr(s.GlobalAttrs, p.globalAttrs)
+	for el, m := range p.elsAndStyles {
+		s.ElStyles[el] = map[string][]string{}
+		verifMergeStyle(s.ElStyles[el], m)
+	}
+	for re, m := range p.elsMatchingAndStyles {
+		if s.PatStyles[re.String()] == nil {
+			s.PatStyles[re.String()] = map[string][]string{}
+		}
+		verifMergeStyle(s.PatStyles[re.String()], m)
+	}
+	verifMergeStyle(s.GlobalStyle, p.globalStyles)
+	for sc, ups := range p.allowURLSchemes {
+		ids := []string{}
+		for _, up := range ups {
+			ids = append(ids, "f:"+verifFuncName(up))
+		}
+		s.Schemes[sc] = verifSortedSet(ids)
+	}
+	for v, on := range p.requireSandboxOnIFrame {
+		if on {
+			s.Sandbox = append(s.Sandbox, v)
+		}
+	}
+	s.Sandbox = verifSortedSet(s.Sandbox)
+	return s
+}
